@@ -157,6 +157,21 @@ h!(q_uninit_slice_init_n2, uninit_slice::<2>(true, true));
 h!(r0_uninit_slice_init_n3_unique, uninit_slice::<3>(true, false));
 h!(r1_uninit_slice_drop_n3, uninit_slice::<3>(false, false));
 h!(r2_uninit_slice_init_n0, uninit_slice::<0>(true, true));
+h!(q_arc_new_uninit_slice_assume_init_shared, {
+    let v: u8 = kani::any();
+    let mut u = UniqueArc::<[MaybeUninit<Dt>]>::new_uninit_slice(1);
+    u[0].write(Dt::new(0, v));
+    let a: Arc<[MaybeUninit<Dt>]> = u.shareable();
+    let b = a.clone();
+    let blk = a.heap_ptr();
+    let a = unsafe { a.assume_init() };
+    assert!(a.heap_ptr() == blk && Arc::count(&a) == 2 && a[0].v == v, "assume_init of a shared handle must keep allocation, contents and count");
+    let b = unsafe { b.assume_init() };
+    drop(a);
+    assert!(ledger_zero());
+    drop(b);
+    assert!(ledger_is(0, 1) && n_live() == 0);
+});
 h!(q_arc_new_uninit_slice_drop, {
     let a = Arc::<[MaybeUninit<Dt>]>::new_uninit_slice(2);
     let b = a.clone();
